@@ -665,7 +665,16 @@ class MemorizedFunc(Logger):
         # file. This is bad practice, but joblib should be robust to bad
         # practice.
         func_code = "%s %i\n%s" % (FIRST_LINE_TEXT, first_line, func_code)
-        self.store_backend.store_cached_func_code([self.func_id], func_code)
+        try:
+            self.store_backend.store_cached_func_code([self.func_id], func_code)
+        except OSError as e:
+            # As for the results and their metadata, a failure to record the
+            # code (typically a race with a concurrent clearing of the cache)
+            # must not make the cached call fail.
+            warnings.warn(
+                f"Unable to write the function code to the cache: {e}.", CacheWarning
+            )
+            return
 
         # Also store in the in-memory store of function hashes
         is_named_callable = (
